@@ -111,6 +111,11 @@ func genC17(g *Gen, n int) {
 			g.Emit("zip.createfromdirsp "+k+" "+hx("example.com/m")+" "+hx("v1.0.0")+" "+c17DirGe124(fs)+" "+zipuDirFilesTok(fs), true, "dir-spelling-sweep")
 		}
 	}
+	// the random stream keeps at least n/3 ops of its own, however large the sweeps above grow (today they are
+	// about 1990 of the quick tier's 3500 ops, so this changes nothing)
+	if n < g.st.Ops+n/3 {
+		n = g.st.Ops + n/3
+	}
 	for i := 0; g.st.Ops < n; i++ {
 		switch k := g.Intn(100); {
 		case k < 50:
